@@ -3,3 +3,5 @@ import Kvql.Generated.Inventory
 import Kvql.Model.Bytes
 import Kvql.Model.Lexer
 import Kvql.Spec.Lex
+import Kvql.Model.Errors
+import Kvql.Model.Limit
